@@ -615,6 +615,12 @@ def cmd_check(tier, seed, nworkers, scale):
                                     "text": "same seed, same history prefix, different outcome in a fresh interpreter with "
                                             "another hash seed", "detail": d},
                       "steps": chk.kept[(d["batch"], d["i"])]["steps"]})
+    state_end = repo_state()
+    if state_end["src_digest"] != state["src_digest"]:
+        # nothing observed in this run can be attributed to ONE tree
+        print(f"HARNESS-ERROR the tree under test changed while the check was running "
+              f"({state['src_digest']} -> {state_end['src_digest']}); run it again on a quiescent tree")
+        return 2
     lines, new, kn = chk.handle_violations(extra)
     wall = time.time() - t0
     ev = evidence(chk, ref, det, state, wall, t_batches, new, kn)
